@@ -92,7 +92,8 @@ PROPS = {
              'templates with {}, {q}, {+}, {f}; 2..13 actions (cursor moves incl. two in one request, change-query, toggles, '
              'refresh-preview, toggle-preview) 0..150 ms apart; the number of live preview processes is sampled after every '
              'action; at quiescence (state and log stable for 0.75 s; 2 s more when not caught up) the last logged invocation, '
-             'the preview pane, and after the session the process table and $TMPDIR are observed (24 sessions quick, 400 thorough)',
+             'the preview pane, and after the session the process table and $TMPDIR are observed (24 sessions quick, 400 thorough)'
+             '; sessions whose input arrives in two parts under --tail with {+} in the template: selected lines are trimmed away while the cursor rests; the selection the last command ran with must be the one fzf reports at rest',
         trusted=['tmux as terminal emulator', '/proc as process table', 'the schedules actually produced (the theorems quantify '
                  'over all traces of the model, the sessions sample schedules of the implementation)'],
         level_text='Lean 4 theorems over a transition-system model of the previewer (mailbox holding only the latest request, '
@@ -223,7 +224,8 @@ PROPS = {
              '--print0 / --print-query / --ansi / --with-nth / --delimiter / --no-sort / --tac; (b) the real binary inside a private '
              'tmux server driven through --listen: random action histories ending in accept / accept-non-empty / '
              'accept-or-print-query / abort / print-query / cancel, with --multi selection histories, print(), --print-query; '
-             '(c) in-process filter runs; non-trivial = some but not all records printed / a history of >= 5 steps; distinct = distinct case lines',
+             '(c) in-process filter runs; non-trivial = some but not all records printed / a history of >= 5 steps; distinct = distinct case lines'
+             '; sessions also with --accept-nth (15 range forms incl. negative and out-of-range bounds over records of 1..4 fields) and --expect (ended by pressing one of the keys or by a posted accept)',
         trusted=['tmux as the terminal emulator', 'the --listen endpoint as the way to inject actions', 'OS pipes'],
         level_text='Lean 4 theorems: exit status and output of a session stated outright for every final state (abort 130 and no '
                    'output; print-query 0; accept 0 iff a selected or current line is output, else 1); output order (query, queued '
@@ -231,7 +233,7 @@ PROPS = {
                    'to print, also under --with-nth. The real binary is run under pipes and tmux; stdout bytes and exit status are '
                    'compared with the model and judged against "every printed record is an input record byte for byte, '
                    'terminated as requested, exit 0 iff something was output".',
-        level_note='Partial: --expect, --select-1 / --exit-0 and --accept-nth are not yet driven; exit status 2 on option errors is '
+        level_note='Partial: --select-1 / --exit-0 are not yet driven (--accept-nth with range expressions and --expect are, in the sessions); exit status 2 on option errors is '
                    'covered under C17. Fixed while building: F13.',
         technique='Lean 4 proof (decision-table theorems over the session model) + process-level correspondence (pipes, tmux)',
     ),
@@ -243,7 +245,8 @@ PROPS = {
              'and line motions, kills, yank, put, change/clear/replace-query), navigation (up/down/first/last/pos/page/half-page) '
              'and selection (select/deselect/toggle*/select-all/deselect-all/toggle-all/clear-selection) actions and toggle-sort, '
              'over lists of 0..40 lines, window heights 5..24, three layouts, --multi limits 0/1/2/3/unlimited, --cycle, --tac, '
-             '--no-sort, --exact; non-trivial = >= 5 steps on >= 2 lines; distinct = distinct sessions',
+             '--no-sort, --exact; non-trivial = >= 5 steps on >= 2 lines; distinct = distinct sessions'
+             '; a directed template of word motions / kills / yank over words made of non-ASCII letters and digits',
         trusted=['tmux', 'the --listen endpoint (state is observed after the renderer has settled: three equal consecutive GETs)',
                  'what matching returns for a query is the C01/C04 model (parameter resultsOf of the session model)'],
         level_text='Lean 4 theorems over the session model, for every history of action lists and every option set: the query cursor '
@@ -269,7 +272,8 @@ PROPS = {
              'ellipsis, long prompt / query, no-input), windows from 1x1 to 200x50, 2..12 (quick) / 2..60 (thorough) steps of action '
              'lists, raw key / mouse bytes (send-keys -H) and resizes, liveness probe, then accept / abort / ctrl-c / SIGTERM / SIGINT, '
              'in a third of the scenarios while an endless preview command is running; non-trivial = buffers >= 3 bytes, every scenario; '
-             'distinct = distinct case lines',
+             'distinct = distinct case lines'
+             '; a directed mouse family: press / drag / release / wheel / right button / double click at and around every edge of the list window (known geometry in half of the scenarios)',
         trusted=['tmux as terminal emulator and its pane flags (alternate_on, mouse_any_flag)', 'stty -g for the termios comparison',
                  'ps for the process table', 'a verdict of the process-level driver is only kept if the same scenario gives it again (re-run twice)'],
         level_text='Lean 4 theorems over an index-checked model of the input decoder (GetChar, escSequence, mouseSequence: every index '
@@ -294,7 +298,8 @@ PROPS = {
              'as wide as the text area +-1) or 110..150 lines with long lines matched at different places by queries of equal '
              'length; windows 24..80 x 8..24, three layouts, info default / inline / hidden, separator on/off, --header (0..2 lines, '
              'also wider than the window), --header-lines 0..2, pointer / marker / ellipsis / prompt variants, --no-hscroll, '
-             '--keep-right, --hscroll-off 0/3/10/25, --multi limits; non-trivial = >= 4 steps on >= 2 lines; distinct = distinct sessions',
+             '--keep-right, --hscroll-off 0/3/10/25, --multi limits; non-trivial = >= 4 steps on >= 2 lines; distinct = distinct sessions'
+             '; --info=inline-right / right; a template of actions that repaint the prompt row only',
         trusted=['tmux as the terminal emulator (capture-pane)', 'the --listen endpoint for the reported state',
                  'how the state evolves under the actions is the C09 session model; what matching returns is the C01/C04 model'],
         level_text='Lean 4 theorems over the rendering model (prompt line, info line, header block, list rows with pointer, marker, '
@@ -341,7 +346,8 @@ PROPS = {
              '(b) grammar-generated interleavings of text with SGR operations (16/256/24-bit colours with ; and : separators, '
              'attributes on/off, resets, combined parameters), OSC-8 hyperlinks, other CSI sequences, two-byte ESC, SO, '
              'backspace pairs; non-trivial = a stream with >= 2 characters and >= 3 operations, or bytes containing ESC; '
-             'distinct = distinct case lines',
+             'distinct = distinct case lines'
+             '; (c) the real binary in filter mode under --ansi (with and without --no-color): records with and without ESC bytes, backspace overstrikes, SO / SI, OSC-8 links, colours left open into the next record; printed = input with exactly its escape sequences removed, found = the lines whose stripped text matches',
         trusted=['the regular expression quoted in ansi.go (with leftmost-first semantics) as the definition of an escape sequence',
                  'utf8.DecodeRune / DecodeLastRune (modelled Go-faithfully)'],
         level_text='Lean 4 theorems, for arbitrary bytes (invalid UTF-8, truncated or nested sequences): every sequence the scanner '
@@ -363,7 +369,8 @@ PROPS = {
              'brace lists, non-ASCII; templates of literal words and placeholders {} {q} {+} {n} {+n} {N} {-N} {A..} {..B} {sN} '
              'and escaped ones, 0..3 items, 0..3 selected, AWK / literal delimiters; every expansion is evaluated by the real '
              '/bin/sh (dash) and bash (printf %s\\0); non-trivial = an item or query containing a character special to the '
-             'shell is substituted; distinct = distinct case lines',
+             'shell is substituted; distinct = distinct case lines'
+             '; expansion sessions also select several items by ONE action list and by select-all before {+} is expanded',
         trusted=['/bin/sh (dash) and bash as the reference for POSIX word splitting; the Lean shell model ShEval is compared '
                  'with both on every quoted string', 'fish is not installed: its single-quote rule is modelled, not validated',
                  'the placeholder regular expression (templates are lists of blank-separated parts)'],
